@@ -54,22 +54,31 @@ pub fn invariant_not_decreased(pool: &PoolInfo, before: &[u128], after: &[u128])
     }
 }
 
-/// By how many normalised units the ask balance after the swap is below the smallest balance that
-/// preserves the exact invariant (0 = invariant preserved). Also returns one ask unit in normalised units.
+/// (shortfall, tolerance): by how many normalised units (x RES) the ask balance after the swap is
+/// below the smallest balance that preserves the exact invariant, and the pricing tolerance the
+/// statement of C19 grants a quote: two smallest units of the ask token plus the value of two
+/// smallest units of the offered token (+2 normalised units of iteration dust).
 fn ask_shortfall(pool: &PoolInfo, before: &[u128], after: &[u128]) -> Option<(BigUint, BigUint)> {
     if let PoolType::StableSwap { amp } = pool.pool_type {
         let (b, mx) = normalise(before, &pool.asset_decimals)?;
         let (a, _) = normalise(after, &pool.asset_decimals)?;
         let j = (0..before.len()).find(|i| after[*i] < before[*i])?;
+        let i = (0..before.len()).find(|i| after[*i] > before[*i])?;
         let st = Stable::new(amp, before.len());
         let d0 = st.d_scaled(&b)?;
-        let others: Vec<BigUint> = a.iter().enumerate().filter(|(i, _)| *i != j).map(|(_, x)| x.clone()).collect();
-        let y = st.y_scaled(&others, &d0)?;
         let r = res();
-        let y_min = (&y + &r - BigUint::from(1u32)) / &r;
-        let unit = BigUint::from(10u64).pow(mx - pool.asset_decimals[j] as u32);
-        let short = if y_min > a[j] { &y_min - &a[j] } else { BigUint::from(0u32) };
-        return Some((short, unit));
+        let others = |bump: &BigUint| -> Vec<BigUint> {
+            a.iter().enumerate().filter(|(k, _)| *k != j).map(|(k, x)| if k == i { x + bump } else { x.clone() }).collect()
+        };
+        let y = st.y_scaled(&others(&BigUint::from(0u32)), &d0)?;
+        let unit_j = BigUint::from(10u64).pow(mx - pool.asset_decimals[j] as u32);
+        let unit_i = BigUint::from(10u64).pow(mx - pool.asset_decimals[i] as u32);
+        let y2 = st.y_scaled(&others(&(&unit_i * 2u32)), &d0)?;
+        let value_two_offer_units = if y > y2 { &y - &y2 } else { BigUint::from(0u32) };
+        let aj = &a[j] * &r;
+        let short = if y > aj { &y - &aj } else { BigUint::from(0u32) };
+        let tol = (&unit_j * 2u32 + BigUint::from(2u32)) * &r + value_two_offer_units;
+        return Some((short, tol));
     }
     None
 }
@@ -77,15 +86,27 @@ fn ask_shortfall(pool: &PoolInfo, before: &[u128], after: &[u128]) -> Option<(Bi
 impl C03 {
     fn hop_violation(pool: &PoolInfo, before: &[u128], after: &[u128], what: &str, detail: String) -> Violation {
         let mut v = viol("C03.invariant_decreased", format!("{what} on pool {} ({:?}, decimals {:?}): reserves {:?} -> {:?}: {detail}", pool.pool_identifier, pool.pool_type, pool.asset_decimals, before, after));
-        // envelope S6: the stableswap output is rounded in the trader's favour by at most one
-        // smallest unit of the ask token (new balance floored when converted to the ask precision)
-        // plus the Newton iteration's own dust (2 normalised units)
-        if let Some((short, unit)) = ask_shortfall(pool, before, after) {
-            if short <= &unit + BigUint::from(2u32) {
+        // envelope S6: the stableswap output is not rounded in the pool's favour (new ask balance
+        // floored when converted to the ask precision, no safety unit, iteration dust), so D can
+        // drop - but only within the pricing tolerance a quote is allowed by C19
+        if let Some((short, tol)) = ask_shortfall(pool, before, after) {
+            if short <= tol {
                 v.finding = Some("S6-stableswap-output-rounding".into());
                 v.truncate = false;
             }
-            v.detail.push_str(&format!(" [ask balance {short} normalised units below the invariant-preserving minimum; one ask unit = {unit}]"));
+            // envelope S9: beyond the 1000:1 skew for which C19 states pricing accuracy, the swap
+            // path's D / y iterations are ill-conditioned and err by more than the quote tolerance
+            if v.finding.is_none() {
+                if let Some((b, _)) = normalise(before, &pool.asset_decimals) {
+                    let mx = b.iter().max().unwrap();
+                    let mn = b.iter().min().unwrap();
+                    if mx > &(mn * 1000u32) {
+                        v.finding = Some("S9-stableswap-skewed-pool-accuracy".into());
+                        v.truncate = false;
+                    }
+                }
+            }
+            v.detail.push_str(&format!(" [ask balance {short}e-9 normalised units below the invariant-preserving minimum; pricing tolerance {tol}e-9]"));
         }
         v
     }
